@@ -139,6 +139,14 @@ func (idx *hybridSearchIndex) AddWithID(id uint32, vector []float32, text string
 func (idx *hybridSearchIndex) addInternal(id uint32, vector []float32, text string, metadata map[string]interface{}) error {
 	info := &documentInfo{}
 
+	// Reject metadata the built-in metadata index cannot store before any
+	// sub-index is modified, so that a failed add leaves no modality changed.
+	if _, ok := idx.metadataIndex.(*RoaringMetadataIndex); ok && len(metadata) > 0 {
+		if err := validateMetadataValues(metadata); err != nil {
+			return fmt.Errorf("failed to add to metadata index: %w", err)
+		}
+	}
+
 	// Add to vector index
 	if idx.vectorIndex != nil && vector != nil && len(vector) > 0 {
 		vectorNode := NewVectorNodeWithID(id, vector)
